@@ -292,3 +292,50 @@ Proof.
     rewrite assign_rename, extend_rename. reflexivity.
   - unfold code_size. rewrite cs_walk_rename. reflexivity.
 Qed.
+
+(* ------------------------------------------------------------------ validation order of new_section, C strings *)
+Lemma new_section_validation h name al ord :
+  (fst (new_section h name al ord) = EInvalidArgument <-> is_zero_or_pow2 al = false) /\
+  (fst (new_section h name al ord) = EInvalidSectionName <-> is_zero_or_pow2 al = true /\ MAX_NAME < Z.of_nat (length name)) /\
+  (fst (new_section h name al ord) = EOk <-> is_zero_or_pow2 al = true /\ Z.of_nat (length name) <= MAX_NAME) /\
+  (fst (new_section h name al ord) <> EOk -> snd (new_section h name al ord) = h).
+Proof.
+  unfold new_section. destruct (is_zero_or_pow2 al); cbn [negb]; [|cbn [fst snd]; repeat split; intros; try discriminate; try reflexivity; destruct H; discriminate].
+  destruct (Z.ltb_spec MAX_NAME (Z.of_nat (length name))); cbn [fst snd].
+  - repeat split; intros; try discriminate; try reflexivity; try lia; destruct H0; lia.
+  - repeat split; intros; try discriminate; try reflexivity; try lia; try (destruct H0; lia). contradiction.
+Qed.
+
+Lemma cstr_no_nul buf : Forall (fun c => c <> 0) (cstr buf).
+Proof. induction buf as [|c t IH]; cbn [cstr]; [constructor|]. destruct (Z.eqb_spec c 0); constructor; assumption. Qed.
+
+Lemma cstr_prefix buf : exists rest, buf = cstr buf ++ rest /\ (rest = [] \/ exists r, rest = 0 :: r).
+Proof.
+  induction buf as [|c t [rest [E Hr]]]; cbn [cstr]; [exists []; auto|].
+  destruct (Z.eqb_spec c 0) as [->|N].
+  - exists (0 :: t). split; [reflexivity|right; eauto].
+  - exists rest. split; [cbn [app]; congruence|assumption].
+Qed.
+
+Lemma cstr_id l : Forall (fun c => c <> 0) l -> cstr l = l.
+Proof. intros H. induction H as [|c t Hc _ IH]; cbn [cstr]; [reflexivity|]. destruct (Z.eqb_spec c 0); [contradiction|congruence]. Qed.
+
+(* new_section(name, SIZE_MAX) then section_by_name(name, SIZE_MAX) with the same C string finds a section of that name *)
+Lemma new_section_cstr_findable h buf al ord h' : reachable h -> 0 <= al < 4294967296 -> INT_MIN <= ord <= INT_MAX ->
+  new_section_cstr h buf al ord = (EOk, h') ->
+  exists j sj, section_by_name_cstr h' buf = Some j /\ 0 <= j <= Z.of_nat (length h) /\ by_id h' j = Some sj /\
+               name_matches sj (cstr buf) = true.
+Proof.
+  intros R Hal Hord E. destruct (new_section_findable h (cstr buf) al ord h' R Hal Hord E) as [j [sj [H1 [H2 [H3 [H4 _]]]]]].
+  exists j, sj. auto.
+Qed.
+
+(* ids of a reachable holder are unique and non-negative *)
+Lemma reachable_ids_unique h : reachable h -> NoDup (map sid h) /\ (forall s, In s h -> 0 <= sid s).
+Proof.
+  intros R. destruct (reachable_inv h R) as [_ [Hi _]]. unfold ids_complete in Hi. split.
+  - apply (Permutation_NoDup (Permutation_sym Hi)). unfold ids_upto.
+    apply FinFun.Injective_map_NoDup; [intros a b; apply Nat2Z.inj|apply seq_NoDup].
+  - intros s Hs. assert (In (sid s) (ids_upto (length h))) by (eapply Permutation_in; [exact Hi|apply in_map; assumption]).
+    apply in_ids_upto in H. lia.
+Qed.
